@@ -49,8 +49,8 @@ fn classify(v: &str) -> MVal {
         Some(d) => (true, d),
         None => (false, v),
     };
-    if !digits.is_empty() && digits.len() <= 12 && digits.bytes().all(|b| b.is_ascii_digit()) {
-        let n: i64 = digits.parse().unwrap();
+    if !digits.is_empty() && digits.bytes().all(|b| b.is_ascii_digit()) && digits.trim_start_matches('0').len() <= 12 {
+        let n: i64 = digits.trim_start_matches('0').parse().unwrap_or(0);
         let n = if neg { -n } else { n };
         if n >= i32::MIN as i64 && n <= i32::MAX as i64 {
             return MVal::Integer(n as i32);
@@ -64,9 +64,113 @@ fn word(rng: &mut Rng, lo: usize, hi: usize) -> String {
     (0..n).map(|_| *rng.pick(&['a', 'b', 'z', 'Q', '0', '9', '-', '_', '.', ' ', 'é', '€', '/', ':', '"', '\'', '=', '%'])).collect::<String>()
 }
 
+/// option values every run must see (scenario case i carries TRICKY_VALUES[i % n] under TRICKY_KEYS[i % m])
+const TRICKY_VALUES: [&str; 40] = [
+    "true", "false", "True", "FALSE", "true ", "\tfalse", "0", "-1", "2147483647", "-2147483648", "2147483648", "-2147483649", "007", "0000000000000000000000012", "99999999999", "-0",
+    "1.5", "1e3", "0x10", " 2", "600\n", "1 2", " ", "", "a=b", "a=b=c", "=", "==x", "standard,label=top-secret", "a=1,b=2", "a4,na-letter", "x,,y", ",k=v", "k=v,",
+    "two-sided-long-edge", "iso_a4_210x297mm", " na letter ", "é€", "a;b=c", "a&b=c",
+];
+const TRICKY_KEYS: [&str; 9] = ["job-sheets", "copies", "x-filter", "media", "job-id", "printer-uri", "attributes-charset", "Job-Name", "k"];
+
+/// deterministic scenario prefix: the scripted-printer behaviours every run must see (the random cases vary everything else)
+#[derive(Clone, Debug)]
+enum Scenario {
+    /// state query answered with this IPP status (check on)
+    GpaStatus(u16),
+    /// Print-Job answered with this IPP status (check off)
+    JobStatus(u16),
+    /// Print-Job answered with this IPP status after a successful state query (check on)
+    JobStatusChecked(u16),
+    GpaHttp(u16),
+    JobHttp(u16),
+    /// printer-state + reasons (check on)
+    Printer(i32, Vec<String>),
+    /// the same printer but -n given: must submit
+    PrinterNoCheck(i32, Vec<String>),
+}
+
+fn scenarios() -> Vec<Scenario> {
+    let mut v = vec![];
+    let failing: Vec<u16> = ippref::registry::STATUS.iter().map(|e| e.0 as u16).filter(|c| *c > 0x00ff).collect();
+    for c in &failing {
+        v.push(Scenario::GpaStatus(*c));
+    }
+    // 0x0003..0x00ff (unassigned codes of the successful class) are left out: C16 lets them decode either way
+    for c in [0u16, 1, 2, 0x0100, 0x0200, 0x0300, 0x1000, 0x7fff, 0x8000, 0xffff] {
+        v.push(Scenario::GpaStatus(c));
+    }
+    for (k, c) in failing.iter().enumerate() {
+        if k % 2 == 0 { v.push(Scenario::JobStatus(*c)); } else { v.push(Scenario::JobStatusChecked(*c)); }
+    }
+    for c in [0u16, 1, 2, 0x0100, 0x1000, 0xffff] {
+        v.push(Scenario::JobStatus(c));
+    }
+    for h in [400u16, 401, 403, 404, 426, 500, 503] {
+        v.push(Scenario::GpaHttp(h));
+        v.push(Scenario::JobHttp(h));
+    }
+    for st in [3, 4, 5] {
+        v.push(Scenario::Printer(st, vec![]));
+        v.push(Scenario::Printer(st, vec!["none".into()]));
+        v.push(Scenario::Printer(st, vec!["media-low-warning".into(), "toner-low-report".into()]));
+    }
+    for b in BLOCKING {
+        v.push(Scenario::Printer(3, vec![b.to_string()]));
+        v.push(Scenario::Printer(4, vec!["media-low-warning".into(), b.to_string()]));
+        v.push(Scenario::Printer(3, vec![b.to_string(), "none".into()]));
+        v.push(Scenario::Printer(4, vec!["none".into(), "toner-low".into(), b.to_string()]));
+    }
+    v.push(Scenario::PrinterNoCheck(5, vec![]));
+    v.push(Scenario::PrinterNoCheck(3, vec!["media-jam".into()]));
+    v.push(Scenario::PrinterNoCheck(4, vec!["paused".into(), "none".into()]));
+    v
+}
+
 fn gen_case(seed: u64, i: u64, tier: &str) -> Case {
+    let sc = scenarios();
+    if (i as usize) < sc.len() {
+        // a random case with a small document, overridden by the scenario
+        let mut c = gen_case_random(seed, i + 1_000_000, "scenario");
+        c.id = format!("u{i}");
+        c.gpa_http = 200;
+        c.job_http = 200;
+        c.gpa_status = 0;
+        c.job_status = 0;
+        c.state = 3;
+        c.reasons = vec![];
+        c.no_check = false;
+        let zk = TRICKY_KEYS[i as usize % TRICKY_KEYS.len()].to_string();
+        c.options.retain(|(k, _)| *k != zk);
+        c.options.push((zk, TRICKY_VALUES[i as usize % TRICKY_VALUES.len()].to_string()));
+        match sc[i as usize].clone() {
+            Scenario::GpaStatus(s) => c.gpa_status = s,
+            Scenario::JobStatus(s) => {
+                c.job_status = s;
+                c.no_check = true;
+            }
+            Scenario::JobStatusChecked(s) => c.job_status = s,
+            Scenario::GpaHttp(h) => c.gpa_http = h,
+            Scenario::JobHttp(h) => c.job_http = h,
+            Scenario::Printer(st, rs) => {
+                c.state = st;
+                c.reasons = rs;
+            }
+            Scenario::PrinterNoCheck(st, rs) => {
+                c.state = st;
+                c.reasons = rs;
+                c.no_check = true;
+            }
+        }
+        return c;
+    }
+    let mut c = gen_case_random(seed, i - sc.len() as u64, tier);
+    c.id = format!("u{i}");
+    c
+}
+
+fn gen_case_random(seed: u64, i: u64, tier: &str) -> Case {
     let mut r = Rng::fork(seed ^ 0xC18, i);
-    let dlen = match r.below(10) {
+    let dlen = match if tier == "scenario" { 2 + r.below(4) } else { r.below(10) } {
         0 => 0,
         1 => 1,
         2..=6 => r.range(2, 20_000),
@@ -112,7 +216,7 @@ fn gen_case(seed: u64, i: u64, tier: &str) -> Case {
             3 => r.pick(&["0", "-1", "2147483647", "-2147483648", "2147483648", "-2147483649", "007", "99999999999"]).to_string(),
             4 => format!("a={}", word(&mut r, 0, 5)),
             5 => String::new(),
-            6 => r.pick(&["True", "FALSE", "1.5", "1e3", "0x10", "two-sided-long-edge", "iso_a4_210x297mm", " 2", "600\n", "true ", "\tfalse", " na letter ", "1 2", " "]).to_string(),
+            6 => r.pick(&TRICKY_VALUES).to_string(),
             _ => word(&mut r, 1, 12).trim_start_matches('-').to_string(),
         };
         options.push((key, val));
@@ -421,7 +525,8 @@ pub fn run(args: &Args, tier: &str, seed: u64) -> Report {
     let ipputil = args.str("--ipputil", "/verif/harness/target/util/release/ipputil");
     let work = args.str("--work", "/verif/work/c18");
     let _ = std::fs::create_dir_all(&work);
-    let n: u64 = args.u64("--cases", if tier == "thorough" { 2000 } else { 60 });
+    let n: u64 = scenarios().len() as u64 + args.u64("--cases", if tier == "thorough" { 2000 } else { 60 });
+    rep.count("scripted_scenarios", scenarios().len() as i64);
     let only = args.get("--only").and_then(|s| s.parse::<u64>().ok());
     let srv = Server::start(None).expect("server");
     let cases: Vec<Case> = (0..n).filter(|i| only.map(|o| o == *i).unwrap_or(true)).map(|i| gen_case(seed, i, tier)).collect();
